@@ -621,3 +621,7 @@ _add(
     "C27",
     m("partial-task-inherits-export-options", T, "    def export_options(self, **task_options_update: Any) -> \"PartialTask[..., R]\":\n        \"\"\"\n        Returns a new PartialTask with exported option overrides.\n        \"\"\"\n        return self.task.export_options(**task_options_update).partial(*self.args, **self.kwargs)\n\n", "", "C27.8"),
 )
+_add(
+    "C17",
+    m("is-valid-ignores-registered-version", T, "        if _task is None or _task.version != self.version:\n            return False\n        return self.hash == self._calc_hash()", "        return self.hash == self._calc_hash()", "C17.7"),
+)
